@@ -235,7 +235,7 @@ async fn node_case(seed: u64, case: u64, rep: &mut Report) {
     let dir = tempfile::tempdir().expect("tempdir");
     let url = format!("sqlite://{}/db.sqlite?mode=rwc", dir.path().display());
     let store = SqliteStoreBuilder::new().database_url(&url).max_connections(4).build().await.expect("store");
-    let node = match p2panda::Node::builder().database_pool(store.pool().clone()).spawn().await {
+    let node = match p2panda::Node::builder().mdns_mode(p2panda::network::MdnsDiscoveryMode::Disabled).database_pool(store.pool().clone()).spawn().await {
         Ok(n) => n,
         Err(e) => {
             rep.inconclusive(format!("node spawn failed: {e}"));
@@ -335,7 +335,7 @@ async fn node_case(seed: u64, case: u64, rep: &mut Report) {
     // A fresh node on the same database: re-opening a topic on the same node right after its
     // stream handles were dropped races with the asynchronous clean-up of the sync handle.
     drop(node);
-    let node = match p2panda::Node::builder().database_pool(store.pool().clone()).spawn().await {
+    let node = match p2panda::Node::builder().mdns_mode(p2panda::network::MdnsDiscoveryMode::Disabled).database_pool(store.pool().clone()).spawn().await {
         Ok(n) => n,
         Err(e) => {
             rep.inconclusive(format!("node re-spawn failed: {e}"));
